@@ -312,7 +312,8 @@ def _case(arg) -> Dict[str, Any]:
         tot = sum(exp_type.values())
         if tot > 0 and not bad:
             for _, r in kt_df.iterrows():
-                if abs(float(r["percentage"]) - round(100 * int(r["sum"]) / tot, 1)) > 1e-6:
+                # reported with one decimal: any correct rounding of the exact share (half-way cases may go either way in floating point)
+                if abs(float(r["percentage"]) - 100 * int(r["sum"]) / tot) > 0.05 + 1e-9:
                     fails.append({"what": "type_table.percentage", "input": inp, "observed": float(r["percentage"]), "expected": round(100 * int(r["sum"]) / tot, 1)})
     return {"n_checks": n, "fails": fails, "nontrivial": n > 0, "sample": {"seed": seed, "num_kernels": num_kernels}, "clauses": {"tables": n}}
 
@@ -387,8 +388,12 @@ SPEC = Spec(
     functions=[(UT, "merge_kernel_intervals"), (BA, "BreakdownAnalysis._get_gpu_kernel_type_time"), (BA, "BreakdownAnalysis._aggr_gpu_kernel_time"),
                (BA, "BreakdownAnalysis.get_gpu_kernel_breakdown")],
     units=units, bounded=[Bounded("tables_vs_oracles", bounded), Bounded("aggr_direct", bounded_aggr)],
-    trusted=["Lean lemmas L1, L3, L4 for the measure reading of the sweep", "a & 2^k on non-negative ints read as (a div 2^k) mod 2"],
-    explanation="Proved (z3, from the AST): merge_kernel_intervals M1-M3 and the mask-to-label decoding of the type table. Bounded (real code, generated traces, "
-                "never counted as proved): the sweep's marker/slab structure, cross-rank sums and percentages of the type table, and conservation / "
-                "named-row count / named-row statistics of the per-kernel table (quantile threshold is a float computation).",
+    trusted=["Lean lemmas L1, L3, L4 for the measure reading of the sweep", "a & 2^k on non-negative ints read as (a div 2^k) mod 2",
+             "groupby(name)[col].agg([sum, max, min, mean, std]) = one row per name holding that group's aggregates (assumed pandas contract; the aggregator's postconditions are "
+             "stated over these aggregate functions); cumsum / quantile kept abstract (the obligations do not depend on the threshold); a per-name total is non-negative (WF5)",
+             "conservation of the per-kernel sums: partition obligation + assumed aggregate contract + Lean sum_filter_add_sum_filter_not; 'at most num_kernels named rows': "
+             "positions are injective (assumed sort contract) and every named row outside the allow-list has a position below num_kernels"],
+    explanation="Proved (z3, from the AST): merge_kernel_intervals M1-M3 (also with stale helper columns), the mask-to-label decoding of the type table, and the per-kernel "
+                "aggregator over the per-name aggregate table (named rows unchanged, partition, others row, position bound, both return paths). Bounded (real code, generated "
+                "traces, never counted as proved): the sweep's marker/slab structure, cross-rank sums and percentages of the type table; the aggregator end to end.",
 )
